@@ -72,7 +72,7 @@ def run_job(job, rep):
             rep.witness(case, "ok:" + type(t).__name__, limit=12)
             rep.sample(dict(case=case, pdu=type(t).__name__))
 
-        _, st = core.explore(run, on_path=judge)
+        _, st = core.explore(run, on_path=judge, stop=rep.enough)
         rep.add_stats(st)
         return
 
@@ -115,7 +115,7 @@ def run_job(job, rep):
                 rep.ob(st, f"built-roundtrip:{cls.__name__}", case, f"decoded {type(t2).__name__}")
                 rep.sample(dict(case=case, decoded=type(t2).__name__), limit=6)
 
-            _, st = core.explore(run, on_path=judge)
+            _, st = core.explore(run, on_path=judge, stop=rep.enough)
             rep.add_stats(st)
 
 
